@@ -103,7 +103,7 @@ def o2_rx(ctx, count, dynamic, mixed=False):
     ctx.reached()
 
 
-def o3_link(ctx, count, pipe, pl, rate, via, reenter=False, history=False):
+def o3_link(ctx, count, pipe, pl, rate, via, reenter=False, history=False, getters=False):
     dynamic = pl is None
     from circuitpython_nrf24l01.rf24 import RF24
     clock = fresh_env(ctx)
@@ -159,6 +159,9 @@ def o3_link(ctx, count, pipe, pl, rate, via, reenter=False, history=False):
         a.__enter__()
         a.listen = False
         ask = 1
+    if getters:  # both applications read every read-only attribute first: nothing about the link may depend on that
+        touch_rf24_getters(a, getters == "down")
+        touch_rf24_getters(b, getters == "down")
     lens = [(3, 32, 1)[i] for i in range(count)]
     bufs = [ctx.bytes("msg%d" % i, ln) for i, ln in enumerate(lens)]
     if via == "write4":
@@ -185,6 +188,8 @@ def o3_link(ctx, count, pipe, pl, rate, via, reenter=False, history=False):
         ctx.check(r == True, "send()/write() reports success on a loss-free compatible link")  # noqa: E712
     for i, x in enumerate(bufs):
         exp = blist(x) if dynamic else pad_trunc(blist(x), pl)
+        if getters and i == 1:
+            touch_rf24_getters(b, getters != "down")
         ctx.check(b.available() == True, "peer has the payload")  # noqa: E712
         ctx.check(b.pipe == pipe, "attributed to the pipe whose address it was sent to")
         got = b.read()
@@ -316,6 +321,9 @@ def jobs(tier):
         out.append(Job("O3-link", o3_link, dict(count=c, pipe=p, pl=pl, rate=r, via=v), cost=5 * c))
     for p, pl in ((1, None), (0, 3)):
         out.append(Job("O3-link-four-uploads", o3_link, dict(count=3, pipe=p, pl=pl, rate=1, via="write4"), cost=10))
+    for c, p, pl, r, v, order in ((3, 1, None, 1, "send", "up"), (2, 4, 5, 250, "sendlist", "down"), (2, 0, 32, 2, "write", "up"), (3, 5, 2, 1, "send", "down"),
+                                  (2, 2, None, 2, "send", "down"), (2, 3, 7, 1, "send", "up")):
+        out.append(Job("O3-link-after-reading-every-getter", o3_link, dict(count=c, pipe=p, pl=pl, rate=r, via=v, getters=order), cost=8 * c))
     for p, pl, r in ((1, None, 1), (4, 5, 250), (0, 32, 2)):
         out.append(Job("O3-link-after-a-configuration-history", o3_link, dict(count=1, pipe=p, pl=pl, rate=r, via="send", history=True), cost=6))
     for p, pl in ((1, None), (3, 5), (0, 32)):
